@@ -35,6 +35,7 @@ uncertainty is already negative (reported once under sub-check "construct") are 
 """
 from fractions import Fraction as F
 
+import json
 import numpy as np
 
 from ..common import Shard, failure, outcome, HarnessError
@@ -116,6 +117,18 @@ REBASE_UNITS = [U_CM + U_M, U_CM + U_M + U_DM, U_ERG + U_J, U_MM + U_KM, U_CM + 
                 (("", "m", 2), ("c", "m", -1)), U_J + U_S + (("", "erg", -1),), U_KM + (("", "m", 2),)]
 SELF_UNITS = [U_M, U_KM, U_NONE, U_CM]       # a*a, a/a, a+a, a-a with BOTH operands the very same object
 TARGET_SCALES = [1, 2, 0.25]     # to(Quantity(k, unit)): an exact "unit with a scale" as conversion target
+
+# operation histories on one live quantity (length dimension throughout, so every conversion target stays admissible):
+# the result of a step is the left operand of the next one, the operand objects of a chain are built once and re-used
+CHAIN_STARTS = [(3.0, ["abse", 0.1], U_M), (-3.0, ["rele", 10.0], U_M), (0.5, None, U_KM),
+                ([2.0, -4.0], ["abse", 0.1], U_CM)]
+CHAIN_STEPS = [["add", 50.0, ["abse", 2.0], "cm"], ["add", 1.0, None, "m"], ["sub", 0.002, ["rele", 10.0], "km"],
+               ["radd", 2.0, ["abse", 0.1], "m"], ["iadd", 7.0, ["abse", 0.5], "cm"],
+               ["mulc", -3], ["divc", -0.25], ["cmul", 2],
+               ["mul", 2.0, ["abse", 0.1], ""], ["div", 0.5, ["rele", 10.0], ""], ["mul", 3.0, None, ""],
+               ["to", "cm"], ["to", "km"], ["to", "m"], ["neg"]]
+CHAIN_UNITS = {"m": U_M, "cm": U_CM, "km": U_KM, "": U_NONE}
+CHAIN_DEPTH = dict(quick=3, thorough=4)
 
 _GUARD = None
 
@@ -381,6 +394,8 @@ def _run(case):
 def check_case(case):
     """-> (failure|None, histogram label)"""
     k = case["k"]
+    if k == "chain":
+        return check_chain(case)
     tags = _tags(case)
     sub = dict(construct="construct", bin=dict(add="sum", sub="sum", mul="product", div="quotient").get(
         case.get("op"), "?"), num="exact-factor", neg="negation", pow="power", to="conversion", rebase="rebase")[k]
@@ -509,6 +524,163 @@ def check_case(case):
     raise HarnessError("unknown case kind %r" % (k,))
 
 
+# ------------------------------------------------------------------------------------------------ chains (histories)
+def _chain_state(q):
+    """what the object reports now, in base dimensions: (value, uncertainty or None, abse, factor, rele or None)"""
+    e = _abse(q)
+    f = _factor_of(q)
+    v = np.asarray(q.value(), dtype=float) * f
+    r = None
+    if e is not None:
+        try:
+            with np.errstate(all="ignore"):
+                r = np.asarray(q.rele(), dtype=float)
+        except Exception:
+            r = None
+    return v, (None if e is None else e * f), e, f, r
+
+
+def _run_chain(case):
+    """-> None when every step agrees with the statement, else (step index, expected, observed, behaviour).  The
+    expectation of a step is computed from what the operands report *immediately before* it (the statement is about
+    the operands of the operation), so an earlier step never has to be trusted."""
+    q = _mk(case["a"])
+    pool = {}
+    for i, st in enumerate(case["steps"]):
+        op = st[0]
+        A, dA, ea, fa, ra = _chain_state(q)
+        if not _nonneg(ea):
+            return (i, "abse() >= 0 before the step", dict(abse=_l(ea)), "negative-uncertainty")
+        B = dB = None
+        if op in ("add", "sub", "radd", "iadd", "mul", "div"):
+            key = json.dumps(st)
+            if key not in pool:
+                pool[key] = _mk(_opnd(st[1], st[2], CHAIN_UNITS[st[3]]))
+            b = pool[key]
+            B, dB, eb, fb, _ = _chain_state(b)
+            if op == "add":
+                res = q + b
+            elif op == "sub":
+                res = q - b
+            elif op == "radd":
+                res = b + q
+            elif op == "iadd":
+                res = q
+                res += b
+            elif op == "mul":
+                res = q * b
+            else:
+                res = q / b
+        elif op == "mulc":
+            res = q * st[1]
+        elif op == "cmul":
+            res = st[1] * q
+        elif op == "divc":
+            res = q / st[1]
+        elif op == "to":
+            res = q.to(st[1])
+        elif op == "neg":
+            res = -q
+        else:
+            raise HarnessError("unknown chain step %r" % (st,))
+        R_, dR, er, fr, rr = _chain_state(res)
+        obs = dict(step=st, before=dict(abse=_l(ea), base_abse=_l(dA)), after=dict(abse=_l(er), units=res.units()))
+        if dB is not None or B is not None:
+            obs["right_base_abse"] = _l(dB)
+        if not _nonneg(er):
+            return (i, "abse() >= 0", obs, "negative-uncertainty")
+        if _hasnan(er):
+            return (i, "a number", obs, "nan-uncertainty")
+        exact_in = dA is None and dB is None
+        if exact_in:
+            if not _exact(er):
+                return (i, "exact result (abse() None)", obs, "not-exact")
+        elif op in ("add", "sub", "radd", "iadd"):
+            want = (0.0 if dA is None else dA) + (0.0 if dB is None else dB)
+            if er is None:
+                return (i, dict(base_abse=_l(want)), obs, "uncertainty-lost")
+            if not _eq(dR, want):
+                return (i, dict(base_abse=_l(want)), obs, "wrong-sum")
+        elif op in ("mulc", "cmul", "divc"):
+            c = abs(float(st[1]))
+            want = dA * c if op != "divc" else dA / c
+            if er is None:
+                return (i, dict(base_abse=_l(want)), obs, "uncertainty-lost")
+            if not _eq(dR, want):
+                return (i, dict(base_abse=_l(want)), obs, "wrong-scale")
+        elif op in ("mul", "div"):
+            if dA is not None and dB is not None:
+                pos = (A > 0) & (B > 0)
+                with np.errstate(all="ignore"):
+                    bound = np.abs(A) * dB + np.abs(B) * dA
+                    if op == "div":
+                        bound = bound / (B * B)
+                if er is None:
+                    return (i, dict(base_abse_at_least=_l(bound)), obs, "uncertainty-lost")
+                if np.any(pos) and not _ge(dR, bound, pos):
+                    return (i, dict(base_abse_at_least=_l(bound)), obs, "below-first-order")
+            elif dB is None:                       # exact quantity as right operand: an exact number
+                want = dA * np.abs(B) if op == "mul" else dA / np.abs(B)
+                if er is None:
+                    return (i, dict(base_abse=_l(want)), obs, "uncertainty-lost")
+                if not _eq(dR, want):
+                    return (i, dict(base_abse=_l(want)), obs, "wrong-scale")
+            elif op == "mul":                      # exact * uncertain
+                want = np.abs(A) * dB
+                if er is None:
+                    return (i, dict(base_abse=_l(want)), obs, "uncertainty-lost")
+                if not _eq(dR, want):
+                    return (i, dict(base_abse=_l(want)), obs, "wrong-scale")
+            # exact / uncertain: size not demanded
+        elif op == "to":
+            if er is None:
+                return (i, dict(base_abse=_l(dA)), obs, "uncertainty-lost")
+            if not _eq(dR, dA):
+                return (i, dict(base_abse=_l(dA)), obs,
+                        "uncertainty-not-converted" if fr != fa and _eq(er, ea) else "wrong-scale")
+            nz = A != 0
+            if np.any(nz) and (rr is None or ra is None or not _eq_where(rr, ra, nz)):
+                obs["rele_before"], obs["rele_after"] = _l(ra), _l(rr)
+                return (i, "rele() unchanged", obs, "rele-changed")
+        # neg: only non-negativity / exactness are demanded
+        q = res
+    return None
+
+
+def check_chain(case):
+    out = outcome(_run_chain, case)
+    if _guard_state() != _GUARD or out[0] == "err":
+        isolation.tables_restore()
+    tags = ["kind:chain", "depth:%d" % len(case["steps"])]
+    if out[0] == "err":
+        return failure("chain", case, "every step gives a result", list(out[1:]), tags=tags,
+                       behaviour="raises:" + out[1]), "raised"
+    if out[1] is None:
+        return None, "ok"
+    i, expected, observed, behaviour = out[1]
+    tags += ["step:" + case["steps"][i][0], "at:%d" % i]
+    return failure("chain", dict(case, failing_step=i), expected, observed, tags=tags, behaviour=behaviour), \
+        "bad:" + behaviour
+
+
+def _chains(tier):
+    depth = CHAIN_DEPTH[tier]
+    for v, e, u in CHAIN_STARTS:
+        a = _opnd(v, e, u)
+        frontier = [[]]
+        for _ in range(depth):
+            nxt = []
+            for h in frontier:
+                for st in CHAIN_STEPS:
+                    if h and st[0] == "to" and h[-1] == st:
+                        continue                      # the same conversion twice in a row adds nothing
+                    nxt.append(h + [st])
+            frontier = nxt
+        # only full-depth histories are run: every shorter history is a prefix of one and judged step by step there
+        for h in frontier:
+            yield dict(k="chain", a=a, steps=h)
+
+
 # ------------------------------------------------------------------------------------------------ enumeration
 def _cases(tier):
     thorough = tier == "thorough"
@@ -626,6 +798,7 @@ def _cases(tier):
     for u in sorted(set(u for u, _ in conversions), key=R.render):
         for a in _operands_z(u):
             yield dict(k="to", a=a, v=_ju(u), tf="list")       # target = list of base-dimension exponents
+    yield from _chains(tier)
 
 
 def plan(tier, seed):
@@ -646,6 +819,10 @@ def run_shard(desc):
             continue
         sh.evaluations += 1
         uncertain = any(case[x]["e"] is not None for x in ("a", "b") if x in case)
+        if case["k"] == "chain":
+            uncertain = True               # every history contains uncertain operands or starts from one
+            sh.transitions += len(case["steps"])
+            sh.add_extra("chain_steps", len(case["steps"]))
         if uncertain:
             sh.nontrivial += 1
         if case["k"] == "bin" and label == "ok:sum":
@@ -705,6 +882,7 @@ def finish(total, tier, seed):
         "products with a factor one": total.extra.get("ones_products", 0) + tot("bin:mul:bad"),
         "powers": tot("pow:"),
         "negations": tot("neg:"),
+        "operation histories": tot("chain:"),
     }
     empty = [name for name, v in need.items() if v == 0]
     if empty:
@@ -723,6 +901,8 @@ def finish(total, tier, seed):
                     product_unit_pairs=[[R.render(a), R.render(b)] for a, b in MUL_UNITS],
                     conversions=[[R.render(a), R.render(b)]
                                  for a, b in (CONVERSIONS_T if tier == "thorough" else CONVERSIONS)], tolerance=TOL),
+        chains=dict(starts=CHAIN_STARTS, steps=CHAIN_STEPS, depth=CHAIN_DEPTH[tier],
+                    histories=tot("chain:"), steps_judged=total.extra.get("chain_steps", 0)),
         caps_hit=[],
         cases_skipped_because_operand_uncertainty_negative=skipped,
         table_leaks_restored=total.extra.get("table_leaks_restored", 0),
@@ -736,7 +916,11 @@ MANIFEST = dict(
          "base-dimension list or exact Quantity k*unit (k=1,2,0.25), rebase() on 8 units that repeat a dimension, "
          "same-object operands (q*q, q/q, q+q, q-q), number->rad/mrad conversions, sums of levels in 5 logarithmic units, "
          "Decimal magnitudes in sums, zero-valued uncertain operands in every equality clause "
-         "(thorough: 10 values x 5 uncertainty kinds, 6 factors, 65 unit pairs; 65 500 cases). "
+         "(thorough: 10 values x 5 uncertainty kinds, 6 factors, 65 unit pairs; 65 500 cases); every operation "
+         "history of depth 3 (thorough 4) over 15 steps (sums with uncertain/exact operands in other prefixes, "
+         "reflected and augmented sums, exact factors, uncertain and exact unit-less multiplicands, in-place "
+         "conversions m/cm/km, negation) from 4 start quantities, each step judged from what its operands report "
+         "immediately before it (13 152 / 194 784 histories). "
          "Checked: abse never negative; sums add uncertainties; exact factor scales by |c|; first-order lower bound "
          "for positive uncertain products/quotients; conversion scales abse with the value and keeps rele; exact "
          "operands give exact results.",
